@@ -2,6 +2,9 @@
 from gen.util import kvs, tparse, pick_outcome
 
 
+VIAS = [" via=readyclone", " via=swap", " via=template", " via=clone"]
+
+
 def gen(rng, tier):
     mx = rng.choice([1, 1, 2, 2, 3, 4])
     wait = rng.choice([None, None, 0, rng.randint(1, 50), rng.randint(1, 50), rng.choice([5, 10, 20])])
@@ -10,6 +13,8 @@ def gen(rng, tier):
         wait = None                       # an unrepresentable deadline (Duration::MAX) behaves like no deadline
         header = "bulkhead max=%d wait=max" % mx
     burn_p = rng.choice([0, 0, 0.15, 0.5])  # callers whose task has used up its cooperative budget before the first poll
+    via_p = rng.choice([0, 0.3, 0.7, 1.0])  # how callers obtain the handle they call (clone / clone of a ready handle / swap idiom / the template)
+    idle_p = rng.choice([0, 0, 0.1, 0.3])
     ncall = rng.randint(1, 10) if rng.random() < 0.8 else rng.randint(mx, mx + 2)
     ops = []
     now = 0
@@ -23,8 +28,11 @@ def gen(rng, tier):
             c = pending.pop(0)
             lat = rng.choice([0, 0, 1, 5, 10, rng.randint(0, 60)])
             out = pick_outcome(rng)
-            ops.append("arrive %d inner=%d:%s%s" % (c, lat, out, " burn=1" if rng.random() < burn_p else ""))
+            via = rng.choice(VIAS) if rng.random() < via_p else ""
+            ops.append("arrive %d inner=%d:%s%s%s" % (c, lat, out, " burn=1" if rng.random() < burn_p else "", via))
             arrived.append(c)
+            if rng.random() < idle_p:
+                ops.append("manual readyidle")   # a handle polled ready and then kept, never called
             if rng.random() < 0.6:
                 ops.append("poll %d" % c)
                 marks.append(now + lat)
@@ -54,7 +62,7 @@ def gen(rng, tier):
         ops.append("adv %d" % rng.choice([0, 1, 100]))
         ids = [100 + i for i in range(mx + (1 if rng.random() < 0.5 else 0))]
         for c in ids:
-            ops.append("arrive %d inner=1000:ok%s" % (c, " burn=1" if rng.random() < burn_p else ""))
+            ops.append("arrive %d inner=1000:ok%s%s" % (c, " burn=1" if rng.random() < burn_p else "", rng.choice(VIAS) if rng.random() < via_p else ""))
         order = ids[:]
         rng.shuffle(order)
         for c in order:
